@@ -234,7 +234,15 @@ class CoqFamily:
             for k, (rc, o) in enumerate(outs):
                 m = re.search(r"=\s*(\[.*?\]|nil)\s*:\s*list Z", o, re.S)
                 if rc != 0 or not m:
-                    log.append(f"shard {k}: coqc rc={rc}: {o[-1500:]}")
+                    # one sequential retry (no parallel load): a shard killed by a resource limit is not a verdict
+                    p2 = launch(k)
+                    o2, _ = p2.communicate()
+                    m2 = re.search(r"=\s*(\[.*?\]|nil)\s*:\s*list Z", o2, re.S)
+                    if p2.returncode == 0 and m2:
+                        log.append(f"shard {k}: first attempt failed (rc={rc}), sequential retry succeeded")
+                        rc, o, m = 0, o2, m2
+                if rc != 0 or not m:
+                    log.append(f"shard {k}: coqc rc={rc}: HEAD {o[:600]} ... TAIL {o[-1200:]}")
                     bad.append(-(k + 1))  # whole shard failed to evaluate
                     continue
                 body = m.group(1)
